@@ -1172,7 +1172,7 @@ class FileSplicer:
         self.report['file_rules'].append({'file': self.fs.path, 'rule': 'N15-ghostfield', 'text': '%s.%s (%d literals)' % (sname, fname, n)})
 
 
-def splice(root: str, spec_paths: List[str], contracts_dir: str, unit: str = '') -> dict:
+def splice(root: str, spec_paths: List[str], contracts_dir: str, unit: str = '', extra_lifts=()) -> dict:
     report = {'functions': [], 'items': [], 'file_rules': [], 'ghost_clauses': []}
     byfile: Dict[str, vspec.FileSpec] = {}
     for sp in spec_paths:
@@ -1181,6 +1181,17 @@ def splice(root: str, spec_paths: List[str], contracts_dir: str, unit: str = '')
                 byfile[fs.path].dirs += fs.dirs
             else:
                 byfile[fs.path] = fs
+    # functions lifted on the fly (helpers introduced by an edit and called from lifted code): bare, no contract
+    for (path, key, props) in extra_lifts:
+        d = vspec.Dir('lift', ['fn', key])
+        d.subs.append(vspec.Dir('props', list(props)))
+        if path not in byfile:
+            fs0 = vspec.FileSpec(path)
+            fs0.dirs.append(vspec.Dir('imports', [], '#[allow(unused_imports)]\nuse vstd::prelude::*;'))
+            byfile[path] = fs0
+        if not any(x.word == 'lift' and x.args[:2] == ['fn', key] for x in byfile[path].dirs):
+            byfile[path].dirs.append(d)
+    report['auto_lifted'] = [{'file': p_, 'fn': k_} for (p_, k_, _) in extra_lifts]
     for path, fs in byfile.items():
         FileSplicer(root, fs, contracts_dir, report).run()
     return report
